@@ -213,11 +213,20 @@ def run_gen(case, res):
                 w.complete(ev[3], ev[4])
             else:
                 w.user_cancel(ev[3])
-        instr.advance(200.0)
-        n_before = len(LOG.select("spy.cancel"))
-        instr.advance(2000.0)
-        if len(LOG.select("spy.cancel")) != n_before:
-            res.violation("cancel-long-after/%s" % case["form"], "cancel() attempts keep arriving long after every deadline")
+        try:
+            instr.advance(200.0)
+            n_before = len(LOG.select("spy.cancel"))
+            instr.advance(2000.0)
+            if len(LOG.select("spy.cancel")) != n_before:
+                res.violation("cancel-long-after/%s" % case["form"], "cancel() attempts keep arriving long after every deadline")
+        except Inconclusive as e:
+            # the timeout thread never comes to rest (thousands of zero-length waits): judge what was logged
+            if len(LOG.select("spy.cancel")) > 50 * max(1, len(w.futs)):
+                res.violation("repeated-cancel/%s" % case["form"], "timeout thread spins: %d cancel() attempts for %d futures (%s)"
+                              % (len(LOG.select("spy.cancel")), len(w.futs), e))
+                res.execs += 1
+                return
+            raise
         res.execs += 1
         check_common(res)
         label = case["name"]
